@@ -26,12 +26,20 @@ pub enum COp {
     Iter,
     Retain(&'static str, bool),
     Clear,
+    /// compute_if_present with a closure that panics (caught by the worker)
+    CipPanic(u32),
+    /// (oracle only) what `retain` does to one key after its predicate rejected the value with this origin
+    CondRm(u32, u32),
+    /// (oracle only) what `retain_force` does to one key after its predicate rejected it
+    ForceRm(u32),
+    /// retain / retain_force whose predicate panics at its n-th call (caught by the worker)
+    RetainPanic(&'static str, bool, usize),
 }
 
 impl COp {
     pub fn key(&self) -> Option<u32> {
         match self {
-            COp::Ins(k, ..) | COp::TryIns(k, ..) | COp::Get(k) | COp::GetKv(k) | COp::Has(k) | COp::Rm(k) | COp::Rme(k) | COp::CipInc(k, _) | COp::CipRm(k) => Some(*k),
+            COp::Ins(k, ..) | COp::TryIns(k, ..) | COp::Get(k) | COp::GetKv(k) | COp::Has(k) | COp::Rm(k) | COp::Rme(k) | COp::CipInc(k, _) | COp::CipRm(k) | COp::CipPanic(k) | COp::CondRm(k, _) | COp::ForceRm(k) => Some(*k),
             _ => None,
         }
     }
@@ -54,6 +62,10 @@ impl COp {
             COp::Iter => "iter".into(),
             COp::Retain(p, f) => format!("{} {}", if *f { "retainf" } else { "retain" }, p),
             COp::Clear => "clear".into(),
+            COp::CipPanic(k) => format!("cippanic {}", k),
+            COp::CondRm(k, o) => format!("retain-removes {} if-still {}", k, o),
+            COp::ForceRm(k) => format!("retainf-removes {}", k),
+            COp::RetainPanic(p, f, n) => format!("{} {} panicat={}", if *f { "retainf" } else { "retain" }, p, n),
         }
     }
 }
@@ -225,6 +237,47 @@ fn exec(m: &M, op: &COp, pin: bool, yielded: &mut Vec<(u32, u64, u32)>, closure_
             m.clear(&g);
             "ok".into()
         }
+        COp::CondRm(..) | COp::ForceRm(..) => "-".into(),
+        COp::CipPanic(k) => {
+            let key = K::new(*k, 0);
+            let mut calls = 0u32;
+            let r = std::panic::catch_unwind(std::panic::AssertUnwindSafe(|| {
+                let g = m.guard();
+                let f = |_: &K, _: &V| -> Option<V> {
+                    calls += 1;
+                    panic!("injected")
+                };
+                fmt_v(m.compute_if_present(&key, f, &g))
+            }));
+            *closure_calls = calls;
+            match r {
+                Ok(s) => s,
+                Err(_) => "panic".into(),
+            }
+        }
+        COp::RetainPanic(pred, force, at) => {
+            let p = crate::seq::pred_fn(pred);
+            let mut verdicts = vec![];
+            let r = std::panic::catch_unwind(std::panic::AssertUnwindSafe(|| {
+                let g = m.guard();
+                let mut i = 0usize;
+                let f = |k: &K, v: &V| {
+                    if i == *at {
+                        panic!("injected");
+                    }
+                    i += 1;
+                    let keep = p(k.id, v.payload);
+                    verdicts.push(format!("{}:{}:{}", k.id, v.origin, keep));
+                    keep
+                };
+                if *force {
+                    m.retain_force(f, &g)
+                } else {
+                    m.retain(f, &g)
+                }
+            }));
+            format!("{}{}", verdicts.join(","), if r.is_err() { " | panic" } else { "" })
+        }
     }
 }
 
@@ -319,6 +372,8 @@ pub fn run_conc(case: &ConcCase, record_all: bool, budget: usize) -> ConcResult 
         let spans: Vec<crate::life::GuardSpan> = calls.iter().map(|c| crate::life::GuardSpan { tid: c.tid, from: c.inv, to: c.resp }).collect();
         let drops = VAL_DROPS.lock().unwrap().clone();
         life_failures.extend(crate::life::analyze(&trace, &spans, &drops));
+        let (hbf, _st) = crate::hb::analyze(&trace, n);
+        life_failures.extend(hbf);
         // teardown: the map (and the collector it owns) goes away; then every instance ever
         // created must have been dropped exactly once
         match Arc::try_unwrap(map) {
@@ -366,6 +421,15 @@ fn spec_step(st: KState, c: &Call) -> Option<KState> {
                 (res == format!("some {} {}", p + 1, o) && saw == format!("{} {}", p, oo) && c.closure_calls == 1).then(|| KState(Some((p + 1, *o))))
             }
         },
+        COp::CipPanic(_) => match st.0 {
+            None => (res == "none" && c.closure_calls == 0).then_some(st),
+            Some(_) => (res == "panic" && c.closure_calls == 1).then_some(st),
+        },
+        COp::CondRm(_, o) => match st.0 {
+            Some((_, oo)) if oo == *o => Some(KState(None)),
+            _ => Some(st),
+        },
+        COp::ForceRm(_) => Some(KState(None)),
         COp::CipRm(_) => match st.0 {
             None => (res == "none" && c.closure_calls == 0).then_some(st),
             Some((p, oo)) => {
@@ -389,7 +453,11 @@ fn apply_effect(st: KState, c: &Call) -> KState {
                 st
             }
         }
-        COp::Rm(_) | COp::Rme(_) | COp::CipRm(_) => KState(None),
+        COp::Rm(_) | COp::Rme(_) | COp::CipRm(_) | COp::ForceRm(_) => KState(None),
+        COp::CondRm(_, o) => match st.0 {
+            Some((_, oo)) if oo == *o => KState(None),
+            _ => st,
+        },
         COp::CipInc(_, o) => match res.strip_prefix("some ") {
             Some(rest) => {
                 let p: u64 = rest.split(' ').next().and_then(|x| x.parse().ok()).unwrap_or(0);
@@ -487,17 +555,47 @@ pub fn judge(case: &ConcCase, r: &ConcResult) -> Verdicts {
     for t in &r.panicked {
         f.push(format!("[panic] thread {} panicked", t));
     }
+    if let Some(b) = &r.outcome.solo_blocked {
+        f.push(format!("[read-blocks] a read running alone (all other threads suspended) was not enabled: {}", b));
+    }
+    if let Some(n) = r.outcome.solo_steps {
+        let table_len: usize = r.final_snap.strip_prefix("len=").and_then(|x| x.split(' ').next()).and_then(|x| x.parse().ok()).unwrap_or(64);
+        let nodes = case.prefill.len() + case.programs.iter().map(|p| p.len()).sum::<usize>();
+        let is_iter = case.programs.first().map(|p| p.iter().any(|o| matches!(o, COp::Iter))).unwrap_or(false);
+        let bound = if is_iter { 100 + 6 * (2 * table_len + 3 * nodes) } else { 100 + 12 * nodes };
+        if n > bound {
+            f.push(format!("[read-blocks] a read running alone needed {} own steps (bound {})", n, bound));
+        }
+    }
     let mut keys: std::collections::BTreeSet<u32> = case.prefill.iter().map(|e| e.0).collect();
     keys.extend(r.calls.iter().filter_map(|c| c.op.key()));
     let finished = !r.outcome.deadlock && !r.outcome.budget_exceeded;
-    // retain / clear make per-key histories depend on whole-map operations: judged elsewhere
-    let whole_map_writes = r.calls.iter().any(|c| matches!(c.op, COp::Retain(..) | COp::Clear));
+    // clear makes per-key histories depend on a whole-map operation: not judged per key
+    let whole_map_writes = r.calls.iter().any(|c| matches!(c.op, COp::Clear));
+    // C13: a retain call is, per key it rejected, a conditional (retain) or unconditional
+    // (retain_force) removal somewhere inside the call's interval
+    let mut all_calls: Vec<Call> = r.calls.clone();
+    for c in &r.calls {
+        let force = match &c.op {
+            COp::Retain(_, f) | COp::RetainPanic(_, f, _) => *f,
+            _ => continue,
+        };
+        let verdicts = c.result.split(" | ").next().unwrap_or("");
+        for v in verdicts.split(',').filter(|x| !x.is_empty()) {
+            let parts: Vec<&str> = v.split(':').collect();
+            if parts.len() == 3 && parts[2] == "false" {
+                let (k, o) = (parts[0].parse::<u32>().unwrap_or(0), parts[1].parse::<u32>().unwrap_or(0));
+                all_calls.push(Call { op: if force { COp::ForceRm(k) } else { COp::CondRm(k, o) }, result: "-".into(), yielded: vec![], ..c.clone() });
+            }
+        }
+    }
+    let r_calls = &all_calls;
     let mut keys_checked = 0;
     if finished && !whole_map_writes {
         for k in &keys {
             let init = KState(case.prefill.iter().rev().find(|e| e.0 == *k).map(|e| (e.1, e.2)));
             let fin = KState(r.final_contents.iter().find(|e| e.0 == *k).map(|e| (e.1, e.2)));
-            let mut cs: Vec<Call> = r.calls.iter().filter(|c| c.op.key() == Some(*k)).cloned().collect();
+            let mut cs: Vec<Call> = r_calls.iter().filter(|c| c.op.key() == Some(*k)).cloned().collect();
             cs.sort_by_key(|c| (c.inv, c.tid));
             keys_checked += 1;
             match linearize(&cs, init, Some(fin)) {
@@ -518,8 +616,10 @@ pub fn judge(case: &ConcCase, r: &ConcResult) -> Verdicts {
                 }
                 None => {
                     let hist: Vec<String> = cs.iter().map(|c| format!("t{}[{}..{}] {} -> {}", c.tid, c.inv, c.resp, c.op.text(), c.result)).collect();
+                    let tag = if cs.iter().any(|c| matches!(c.op, COp::CondRm(..) | COp::ForceRm(..))) { "retain" } else { "lin" };
                     f.push(format!(
-                        "[lin] key {}: no sequential order of its operations explains the results (initial {:?}, final {:?}): {}",
+                        "[{}] key {}: no sequential order of its operations explains the results (initial {:?}, final {:?}): {}",
+                        tag,
                         k,
                         init.0,
                         fin.0,
@@ -531,13 +631,13 @@ pub fn judge(case: &ConcCase, r: &ConcResult) -> Verdicts {
         // C07: weak consistency of every completed iteration
         for it in r.calls.iter().filter(|c| matches!(c.op, COp::Iter)) {
             for k in &keys {
-                let mut cs: Vec<&Call> = r.calls.iter().filter(|c| c.op.key() == Some(*k)).collect();
+                let mut cs: Vec<&Call> = r_calls.iter().filter(|c| c.op.key() == Some(*k)).collect();
                 cs.sort_by_key(|c| (c.inv, c.tid));
                 let Some(w) = witnesses.get(k) else { continue };
                 if w.len() != cs.len() {
                     continue;
                 }
-                let mutating = |c: &Call| matches!(c.op, COp::Ins(..) | COp::TryIns(..) | COp::Rm(..) | COp::Rme(..) | COp::CipInc(..) | COp::CipRm(..));
+                let mutating = |c: &Call| matches!(c.op, COp::Ins(..) | COp::TryIns(..) | COp::Rm(..) | COp::Rme(..) | COp::CipInc(..) | COp::CipRm(..) | COp::CondRm(..) | COp::ForceRm(..));
                 let init = KState(case.prefill.iter().rev().find(|e| e.0 == *k).map(|e| (e.1, e.2)));
                 // state after every operation that completed before the iterator was created
                 let mut st = init;
@@ -752,6 +852,111 @@ pub fn gen_conc_mode(id: usize, seed: u64, tier_big: bool, mode: &str) -> ConcCa
             }
             (programs, cap, prefill, hashes, "grow")
         }
+        "cip" => {
+            // every thread hammers one or two hot keys with compute_if_present, in a list or a tree bin
+            let tree = rng.chance(1, 2);
+            let hc = if tree { "zero" } else { *rng.pick(&["zero", "ident", "fewbins"]) };
+            let hashes = crate::gen::gen_hashes(&mut rng, hc, 40);
+            let pre = if tree { 9 + rng.below(3) as usize } else { 1 + rng.below(4) as usize };
+            let prefill: Vec<(u32, u64, u32)> = (0..pre).map(|i| ((i + 1) as u32, rng.below(5), fresh())).collect();
+            let hot = 1 + rng.below(pre as u64) as u32;
+            let mut programs = vec![];
+            for _ in 0..(2 + rng.below(3) as usize) {
+                let mut p = vec![];
+                for _ in 0..(1 + rng.below(4)) {
+                    p.push(match rng.below(10) {
+                        0..=5 => COp::CipInc(hot, fresh()),
+                        6 => COp::CipRm(hot),
+                        7 => COp::Ins(hot, rng.below(5), fresh()),
+                        8 => COp::Get(hot),
+                        _ => COp::Rm(1 + rng.below(pre as u64) as u32),
+                    });
+                }
+                programs.push(p);
+            }
+            (programs, if tree { 64 } else { 0 }, prefill, hashes, "cip")
+        }
+        "retain" => {
+            let hc = *rng.pick(&["zero", "ident", "fewbins", "uniform"]);
+            let hashes = crate::gen::gen_hashes(&mut rng, hc, 40);
+            let pre = 2 + rng.below(10) as usize;
+            let prefill: Vec<(u32, u64, u32)> = (0..pre).map(|i| ((i + 1) as u32, rng.below(5), fresh())).collect();
+            let preds: &[&'static str] = &["even", "odd", "none", "veven", "k3"];
+            let mut programs = vec![vec![COp::Retain(*rng.pick(preds), rng.chance(1, 2))]];
+            for _ in 0..(1 + rng.below(2) as usize) {
+                let mut p = vec![];
+                for _ in 0..(1 + rng.below(4)) {
+                    let k = 1 + rng.below(pre as u64 + 2) as u32;
+                    p.push(match rng.below(6) {
+                        0..=2 => COp::Ins(k, rng.below(5), fresh()),
+                        3 => COp::Rm(k),
+                        4 => COp::CipInc(k, fresh()),
+                        _ => COp::Get(k),
+                    });
+                }
+                programs.push(p);
+            }
+            (programs, if hc == "zero" && pre > 8 { 64 } else { 0 }, prefill, hashes, "retain")
+        }
+        "panic" => {
+            let tree = rng.chance(1, 2);
+            let hc = if tree { "zero" } else { *rng.pick(&["zero", "ident", "fewbins"]) };
+            let hashes = crate::gen::gen_hashes(&mut rng, hc, 40);
+            let pre = if tree { 9 + rng.below(3) as usize } else { 1 + rng.below(6) as usize };
+            let prefill: Vec<(u32, u64, u32)> = (0..pre).map(|i| ((i + 1) as u32, rng.below(5), fresh())).collect();
+            let k0 = 1 + rng.below(pre as u64) as u32;
+            let mut first = vec![];
+            if rng.chance(2, 3) {
+                first.push(COp::CipPanic(k0));
+            } else {
+                first.push(COp::RetainPanic(*rng.pick(&["even", "none", "k3"]), rng.chance(1, 2), rng.below(pre as u64 + 1) as usize));
+            }
+            // the panicking thread goes on, on the same bin
+            first.push(COp::Ins(k0, 4, fresh()));
+            first.push(COp::Get(k0));
+            let mut programs = vec![first];
+            for _ in 0..(1 + rng.below(2) as usize) {
+                let mut p = vec![];
+                for _ in 0..(1 + rng.below(3)) {
+                    let k = 1 + rng.below(pre as u64 + 1) as u32;
+                    p.push(match rng.below(5) {
+                        0 | 1 => COp::Ins(k, rng.below(5), fresh()),
+                        2 => COp::Rm(k),
+                        3 => COp::CipInc(k0, fresh()),
+                        _ => COp::Get(k0),
+                    });
+                }
+                programs.push(p);
+            }
+            (programs, if tree { 64 } else { 0 }, prefill, hashes, "panic")
+        }
+        "solo" => {
+            // thread 0 performs one read; the others write into the same bin / resize the table
+            let shape = rng.below(3);
+            let hc = if shape == 0 { "zero" } else { *rng.pick(&["ident", "fewbins", "alternate"]) };
+            let hashes = crate::gen::gen_hashes(&mut rng, hc, 60);
+            let pre = match shape { 0 => 7 + rng.below(5) as usize, 1 => 1 + rng.below(6) as usize, _ => 9 + rng.below(6) as usize };
+            let prefill: Vec<(u32, u64, u32)> = (0..pre).map(|i| ((i + 1) as u32, rng.below(5), fresh())).collect();
+            let cap = match shape { 0 => 64, 1 => 0, _ => 8 };
+            let rk = 1 + rng.below(pre as u64 + 2) as u32;
+            let read = match rng.below(6) { 0 | 1 => COp::Get(rk), 2 => COp::Has(rk), 3 => COp::GetKv(rk), 4 => COp::Iter, _ => COp::Len };
+            let mut programs = vec![vec![read]];
+            for _ in 0..(1 + rng.below(2) as usize) {
+                let mut p = vec![];
+                for _ in 0..(1 + rng.below(4)) {
+                    let k = 1 + rng.below(pre as u64 + 6) as u32;
+                    p.push(match rng.below(8) {
+                        0..=2 => COp::Ins(k, rng.below(5), fresh()),
+                        3 | 4 => COp::Rm(k),
+                        5 => COp::CipInc(k, fresh()),
+                        6 => COp::Reserve(rng.below(60) as usize),
+                        _ => COp::CipRm(k),
+                    });
+                }
+                programs.push(p);
+            }
+            (programs, cap, prefill, hashes, "solo")
+        }
         _ => (programs, cap, prefill, hashes, class),
     };
     let policy = match rng.below(4) {
@@ -760,5 +965,6 @@ pub fn gen_conc_mode(id: usize, seed: u64, tier_big: bool, mode: &str) -> ConcCa
         2 => Policy::Pct { d: 2, horizon: 200 },
         _ => Policy::Random,
     };
+    let policy = if mode == "solo" { Policy::Solo { reader: 0, after: rng.below(160) as usize } } else { policy };
     ConcCase { id, seed, hash_class: class, hashes, cap, prefill, programs, policy, pin: rng.chance(1, 3) }
 }
